@@ -84,6 +84,10 @@ func c02(c *Ctx) {
 	r.Expl = "Structural clauses behind 'Reset/Cancel restores the exact original bytes': the bytes written back on unpatch are the guard's originBytes at the guard's origin; those bytes have exactly one provenance — a private copy read of len(jump) bytes at the patch origin, accepted only when the already-patched sentinel test is false; before that capture every path restores a previously registered patch of the same origin (so the captured bytes are pristine); guard fields are written once, in the constructor, from the patch's corresponding fields; nothing reachable from Cancel/Reset writes jump bytes; Reset cancels every cached mocker unconditionally and container mockers cancel every child of every cache. Byte equality of the live image is not decided."
 	r.RuleText = "one obligation per (rule, store / call site / loop)"
 	r.Floor("C02.R1", 3)
+	// R8: a recorded guard is replaced only by the outcome of a successful construction
+	if n := checkGuardReplacedOnSuccess(p, r, "C02.R8"); n == 0 {
+		r.Und("C02.R8", "guard replacement", "", "no mocker records a guard built from a fallible call")
+	}
 	r.Floor("C02.R2", 2)
 	r.Floor("C02.R3", 3)
 	r.Floor("C02.R4", 3)
